@@ -22,7 +22,7 @@ ASSUMPTIONS = ['the composition model in this file is the documented composition
 REQUIRED = {'mon:connect_circuit.checked': 200, 'mon:connect_left.checked': 30, 'mon:connect_right.checked': 30,
             'mon:connect_inputs.checked': 20, 'mon:extend_circuit.checked': 30, 'mon:add_circuit.checked': 20,
             'block_extracted': 100, 'dir:right/internal_connector': 30, 'dir:left/repeated_base_gate': 20,
-            'dir:left/internal_base_gate': 30, 'chain>=2': 50}
+            'dir:left/internal_base_gate': 30, 'chain>=2': 50, 'deep_attached_circuits': 3}
 
 CUR = {'ctx': None, 'case': None}
 
@@ -31,6 +31,8 @@ def shards(tier, seed):
     per = 180 if tier == 'quick' else 15000
     budget = 45 if tier == 'quick' else 540
     _out = [{'kind': 'random', 'count': per, 'budget_s': budget} for _ in range(16)]
+    _out.append({'kind': 'deep', 'count': 4 if tier == 'quick' else 60, 'budget_s': budget,
+                 'depths': [1200, 2500, 4000] if tier == 'quick' else [900, 1000, 1100, 1500, 3000, 6000]})
     if tier == 'thorough':
         _out.append({'kind': 'suite', 'select': ['tests'], 'budget_s': 900})
     return _out
@@ -286,20 +288,26 @@ def install(ctx):
 
 # ------------------------------------------------------------------ workload
 
-def _gen_step(rng, base_net, step):
+def _gen_step(rng, base_net, step, deep=None):
     """Choose attached circuit + call description for the current base."""
     clash = rng.random() < 0.25
     onet = netgen.rand_net(rng, max_in=3, max_g=6, shape=rng.choice(netgen.SHAPES), n_out=rng.randint(1, 3),
                            allow_repeat_outputs=rng.random() < 0.3, const_operands=rng.random() < 0.3)
+    if deep:
+        # the attached circuit is a long dependency chain (ripple / iterated construction)
+        clash = False
+        onet = netgen.deep_net(rng, deep, n_in=rng.randint(1, 3))
     if not clash:
         onet = netgen.relabel(onet, {l: 'a%d_%s' % (step, l) for l in onet.gates})
-    name = '' if rng.random() < 0.4 else 'B%d' % step
+    name = '' if rng.random() < (0.15 if deep else 0.4) else 'B%d' % step
     add_prefix = rng.random() < 0.75
     kw = {'name': name, 'add_prefix': add_prefix}
     blabels = list(base_net.gates)
     binputs = list(base_net.inputs)
     api = rng.choice(['connect_circuit_left', 'connect_circuit_left', 'connect_circuit_right', 'connect_circuit_right',
                       'connect_left', 'connect_right', 'connect_inputs', 'extend_left', 'extend_right', 'add_circuit'])
+    if deep:
+        api = rng.choice(['connect_circuit_left', 'connect_circuit_right', 'connect_left', 'connect_right', 'add_circuit'])
     d = {'api': api, 'other': netgen.describe(onet), 'kw': kw, 'other_block': rng.random() < 0.25, 'oseed': rng.getrandbits(32)}
     if api == 'connect_circuit_left':
         k = rng.randint(0, len(onet.inputs)) if blabels else 0
@@ -387,7 +395,9 @@ def check_case(case, ctx):
         with monitor.suspended():
             base_net = refsem.net_of(c)
             backup = copy.deepcopy(c)
-        d = _gen_step(rng, base_net, step)
+        d = _gen_step(rng, base_net, step, deep=case.get('deep'))
+        if case.get('deep'):
+            ctx.count('deep_attached_circuits')
         steps.append(d)
         onet = netgen.from_description(d['other'])
         nviol = sum(ctx._viol_count.values())
@@ -442,6 +452,9 @@ def check_case(case, ctx):
 def gen_case(rng, spec):
     shape = rng.choice(netgen.SHAPES)
     net = netgen.rand_net(rng, shape=shape, max_in=4, min_in=1, max_g=7, max_arity=3, n_out=rng.randint(1, 3))
+    if spec.get('kind') == 'deep':
+        return {'kind': 'random', 'shape': shape, 'net': netgen.describe(net), 'rseed': rng.getrandbits(32), 'chain': 1,
+                'deep': rng.choice(spec['depths'])}
     return {'kind': 'random', 'shape': shape, 'net': netgen.describe(net), 'rseed': rng.getrandbits(32),
             'chain': rng.randint(1, 3)}
 
